@@ -20,7 +20,7 @@ class PInst:
     """Generic instance: `inputs`/`outputs` are real signals in protocol order."""
 
     def __init__(self, name, module, lean_open, inputs, outputs, alphabet, gen, nontrivial, monitor=None,
-                 qual=None, fixed=None):
+                 qual=None, fixed=None, idle=None):
         self.name = name
         self.module = module
         self.lean_open = lean_open
@@ -33,6 +33,8 @@ class PInst:
         self.qual = qual if qual is not None else [None] * len(self.outputs or [])
         if monitor is not None:
             self.monitor = monitor
+        if idle is not None:
+            self.idle_letter = idle      # last letter -> a letter that lets the core finish what it started
         if fixed:
             for s, v in fixed:
                 self.netlist.set(s, v)
@@ -43,6 +45,21 @@ class PInst:
 
     def nontrivial(self, letter, outs):
         return bool(self._nontrivial(letter, outs))
+
+
+class Scripted:
+    """An instance whose mode-B generator plays a fixed trace (corpus witnesses)."""
+    def __init__(self, inst, trace, tag):
+        self.__dict__.update(inst.__dict__)
+        self._inst = inst
+        self._trace = trace
+        self.name = "corpus/%s: %s" % (tag, inst.name)
+        for k in ("apply", "sample", "monitor", "model_letter", "nontrivial"):
+            if hasattr(inst, k):
+                setattr(self, k, getattr(inst, k))
+
+    def gen(self, rng, t):
+        return self._trace[t]
 
 
 def prod(*axes):
@@ -110,7 +127,7 @@ def mk_timer(width, values=None):
                  [core._load.storage, core._reload.storage, core._en.storage, core._update_value.re],
                  [core.ev.zero.trigger, core._value.status],
                  prod(vals, vals, (0, 1), (0, 1)), gen,
-                 lambda l, o: l[2] or l[3] or o[0], monitor=TimerMonitor)
+                 lambda l, o: l[2] or l[3] or o[0], monitor=TimerMonitor, idle=lambda l: (l[0], l[1], l[2], 0))
 
 
 # ---------------------------------------------------------------------------------------------------------
@@ -139,7 +156,7 @@ class WatchdogMonitor:
             msg = "execute=%d, reference %d" % (execute, self.exe)
         elif trig != (en & self.exe):
             msg = "wdt event trigger=%d with enable=%d execute=%d" % (trig, en, self.exe)
-        elif crg_rst != (1 if self.streak >= self.delay else 0):
+        elif crg_rst != (1 if (en and self.exe and rstf and self.streak >= self.delay) else 0):
             msg = "crg_rst=%d after %d cycles of timeout in reset mode (reset_delay=%d)" % (crg_rst, self.streak, self.delay)
         self.streak = self.streak + 1 if (en and self.exe and rstf) else 0
         if feed:
@@ -171,7 +188,8 @@ def mk_watchdog(width, delay, values=None):
                  [f.feed, f.enable, f.reset, f.pause_halted, halted, core._cycles.storage],
                  [core.ev.wdt.trigger, crg_rst, core._remaining.status, core.execute],
                  prod((0, 1), (0, 1), (0, 1), (0, 1), (0, 1), vals), gen,
-                 lambda l, o: l[0] or l[1] or o[0], monitor=lambda: WatchdogMonitor(delay))
+                 lambda l, o: l[0] or l[1] or o[0], monitor=lambda: WatchdogMonitor(delay),
+                 idle=lambda l: (0,) + tuple(l[1:]))
 
 
 # ---------------------------------------------------------------------------------------------------------
@@ -394,7 +412,7 @@ def mk_uart_tx(tw, bytes_=(0x00, 0xff, 0xa5, 0x3c), name=None):
 
     return PInst(name or "RS232PHYTX(tw=0x%x)" % tw, core, "uarttx %d" % tw, [core.sink.valid, core.sink.data],
                  [pads.tx, core.sink.ready], prod((0, 1), bytes_), gen, lambda l, o: o[1] or (l[0] and o[0]),
-                 monitor=lambda: UartTxMonitor(tw))
+                 monitor=lambda: UartTxMonitor(tw), idle=lambda l: (0, 0))
 
 
 class RefTransmitter:
@@ -638,6 +656,9 @@ class SpiMasterInst(PInst):
     def monitor(self):
         return SpiMasterMonitor(self.dw, self.aligned)
 
+    def idle_letter(self, last):
+        return (0,) + tuple(last[1:])
+
     def gen(self, rng, t):
         if t == 0:
             self._div = rng.choice(self.divs)
@@ -836,6 +857,9 @@ class I2cInst(PInst):
     def sample(self):
         n, c = self.netlist, self.core
         return [n.getu(c.scl_o), n.getu(c.sda_o), n.getu(c.idle), n.getu(c.data), n.getu(c.ack)]
+
+    def idle_letter(self, last):
+        return (0, 0, 0, 0, 1, self.load, 0, 0, 0)
 
     def gen(self, rng, t):
         if t == 0:
